@@ -2,6 +2,7 @@
   C11  Refresh keeps the session current or ends it.
 -/
 import AuthProofs.Ladder
+import AuthProofs.CodeEquivOidc
 namespace AuthProps.C11
 open AuthModel AuthModel.Oidc
 
@@ -48,6 +49,18 @@ example : (mergeTokens { attrs := fun _ => none, sigOK := fun _ => true, s256 :=
     { idToken := B "junk", accessToken := [], refreshToken := B "r1", expiresIn := 0, tokenType := B "Bearer" } 100)
     = { idToken := B "old", accessToken := B "a0", refreshToken := B "r1", accessExp := some 7 } := by decide
 
+/-- the two token-response validators AS TRANSLATED FROM THE GO SOURCE on this run never panic on a decoded
+    (non-nil) answer and are the model's `validRefreshResponse` / `validNewResponse`: token_type is Bearer in any
+    capitalisation, expires_in is not negative, and at login an access token is present when forwarding is configured -/
+theorem code_response_validators (env : Go.Env) (c : Pb.OIDCConfig) (r : Pb.IdpTokensResponse) (cfg : Cfg)
+    (hn : r.isNil = false) (hc : cfg.access.isSome = !c.GetAccessToken.isNil) :
+    Code.isValidIDPRefreshTokenResponse env r = .ok (validRefreshResponse (bodyOf r)) ∧
+    Code.isValidIDPNewTokensResponse env c r = .ok (validNewResponse cfg (bodyOf r)) :=
+  ⟨code_validRefresh env r hn, code_validNew env c r cfg hn hc⟩
+
+example : Code.isValidIDPRefreshTokenResponse {} { TokenType := B "bEARER", ExpiresIn := 0 } = .ok true := by decide
+example : Code.isValidIDPRefreshTokenResponse {} { TokenType := B "", ExpiresIn := 5 } = .ok false := by decide
+
 end AuthProps.C11
 
 #print axioms AuthProps.C11.refresh_request
@@ -57,3 +70,4 @@ end AuthProps.C11
 #print axioms AuthProps.C11.refresh_success_stores_and_forwards_merged
 #print axioms AuthProps.C11.refresh_failure_removes_session
 #print axioms AuthProps.C11.refresh_branch_outcomes
+#print axioms AuthProps.C11.code_response_validators
